@@ -185,11 +185,13 @@ impl ArgMatcher {
                 Some(compare_macro) => {
                     let span = pat_macro.mac.path.span();
                     let tokens = pat_macro.mac.tokens;
-                    let local_ident = syn::Ident::new(&format!("l{local_counter}"), span);
+                    // The generated names are hygienic (mixed site):
+                    // a user binding that happens to be called `l0` or `m1` must not capture them.
+                    let hygienic_span = span.resolved_at(proc_macro2::Span::mixed_site());
+                    let local_ident = syn::Ident::new(&format!("l{local_counter}"), hygienic_span);
                     *local_counter += 1;
 
-                    let pat_bind_ident =
-                        syn::Ident::new(&format!("m{index}"), pat_macro.mac.path.span());
+                    let pat_bind_ident = syn::Ident::new(&format!("m{index}"), hygienic_span);
 
                     Self::Compare(CompareMatcher {
                         span,
